@@ -44,6 +44,9 @@ def make_solver(env, opts):
     from tangelo.algorithms.variational import VQESolver
     o = dict(opts)
     o.setdefault("backend_options", {"target": "cirq"})
+    from tangelo.algorithms.variational import BuiltInAnsatze as _B
+    if o.get("ansatz") is _B.UCCSD:
+        o.setdefault("initial_var_params", "ones")      # the default ('mp2') runs an MP2 calculation per shape; the values are overwritten anyway
     with shim.concrete_mode():
         s = VQESolver(o)
         s.build()
@@ -114,14 +117,18 @@ def h_energy(env, opts, patt, n, canary=False, hkind=None):
     env.check_eq(R.inner(st, st), 1, "<psi|psi> == 1 (with faithfulness: energy >= lowest eigenvalue by Rayleigh-Ritz)")
 
 
-def h_deflation(env, opts, patt, n, ref_state=None):
+def h_deflation(env, opts, patt, n, ref_state=None, narrow=False):
     from tangelo.linq import Circuit, Gate
     opts = dict(opts)
     opts["molecule"] = mol(opts.pop("molecule_key"))
     if ref_state is not None:
         opts["ref_state"] = ref_state
-    cd = Circuit([Gate("X", 0), Gate("RY", 1, parameter=np.pi / 4), Gate("CNOT", 2, 1), Gate("H", 3)] if n == 4 else
-                 [Gate("RY", 0, parameter=np.pi / 4), Gate("CNOT", 1, 0)], n_qubits=n)
+    if narrow:
+        # a determinant preparation touching the first qubits only: the deflation circuit is NARROWER than the ansatz
+        cd = Circuit([Gate("X", 0), Gate("RY", 1, parameter=np.pi / 4)] if n == 4 else [Gate("RY", 0, parameter=np.pi / 4)])
+    else:
+        cd = Circuit([Gate("X", 0), Gate("RY", 1, parameter=np.pi / 4), Gate("CNOT", 2, 1), Gate("H", 3)] if n == 4 else
+                     [Gate("RY", 0, parameter=np.pi / 4), Gate("CNOT", 1, 0)], n_qubits=n)
     coeff = env.real("w", lo=0, hi=5)
     opts["deflation_circuits"] = [cd]
     opts["deflation_coeff"] = coeff
@@ -289,6 +296,44 @@ def h_penalty(env, opts, patt, n, pen):
     env.check_eq(got, want, f"<psi|H_solver - H_molecule|psi> with penalty_terms {sorted(pen)} == sum mu <(O - v)^2>   [{mapping}, up_then_down={utd}]")
 
 
+def h_userop(env, opts, patt, n, kind):
+    """operator_expectation with a user-supplied operator (QubitOperator with symbolic coefficients / FermionOperator), then
+    an energy evaluation: the value is that of the prepared state, and the solver's own Hamiltonian is back afterwards"""
+    from tangelo.toolboxes.operators import QubitOperator, FermionOperator
+    opts = dict(opts)
+    molecule = mol(opts.pop("molecule_key"))
+    opts["molecule"] = molecule
+    mapping, utd = opts.get("qubit_mapping", "jw"), opts.get("up_then_down", False)
+    try:
+        s = make_solver(env, opts)
+        th = vec(env, "th", patt)
+        with sym_alloc(env):
+            H_before = s.qubit_hamiltonian
+            terms_before = dict(H_before.terms)
+            if kind == "qubit":
+                op = QubitOperator()
+                words = [((0, "Z"),), ((0, "X"), (1, "Y")), ((1, "Z"), (n - 1, "Z")), ()]
+                for i, w in enumerate(words):
+                    op.terms[w] = env.real(f"u{i}", lo=-2, hi=2)
+                val = s.operator_expectation(op, th)
+            else:
+                val = s.operator_expectation(FermionOperator(((0, 1), (0, 0))) + 2 * FermionOperator(((3, 1), (3, 0))), th)
+            e = s.energy_estimation(th)
+            st = full_circuit_state(s, n)
+    finally:
+        c02._restore()
+    if kind == "qubit":
+        env.check_eq(val, R.expectation(st, n, dict(op.terms)), "operator_expectation(user QubitOperator) == <psi|Op|psi>")
+    else:
+        amps = decode_amplitudes(st, molecule.n_active_sos, mapping, utd)
+        want = R.C(0)
+        for f, a in amps.items():
+            want = want + (f[0] + 2 * f[3]) * a * R.n_conj(a)
+        env.check_eq(val, want, f"operator_expectation(n_0 + 2 n_3 as FermionOperator) == sum_f |<Enc f|psi>|^2 (f_0 + 2 f_3)  [{mapping}, up_then_down={utd}]")
+    env.check_true(s.qubit_hamiltonian is H_before and dict(s.qubit_hamiltonian.terms) == terms_before, "target Hamiltonian restored after operator_expectation")
+    env.check_eq(e, R.expectation(st, n, terms_before), "energy_estimation after operator_expectation == <psi|H|psi> of the solver's own Hamiltonian")
+
+
 def h_refstate(env, patt):
     """solver given a reference-state override: the symmetry expectation must refer to the same state as the energy"""
     from tangelo.algorithms.variational import BuiltInAnsatze
@@ -383,5 +428,14 @@ def shapes(tier, seed):
                                                                        patt="ss", n=4, ref_state=[1, 0, 0, 1]), modules=MODS, max_paths=64))
     out.append(Shape("deflation/uccsd/H2/scbk", h_deflation, dict(opts=dict(molecule_key="H2", qubit_mapping="scbk", ansatz=BuiltInAnsatze.UCCSD), patt="ss", n=2),
                      modules=MODS, max_paths=64))
+    out.append(Shape("deflation/uccsd/H2/jw/narrow", h_deflation, dict(opts=dict(molecule_key="H2", qubit_mapping="jw", ansatz=BuiltInAnsatze.UCCSD), patt="ss", n=4, narrow=True),
+                     modules=MODS, max_paths=64))
+    out.append(Shape("deflation/uccsd/H2/scbk/narrow", h_deflation, dict(opts=dict(molecule_key="H2", qubit_mapping="scbk", ansatz=BuiltInAnsatze.UCCSD), patt="ss", n=2, narrow=True),
+                     modules=MODS, max_paths=64))
+    for mp, utd in (("jw", False), ("bk", True), ("jkmn", False)):
+        for kind in ("qubit", "fermion"):
+            out.append(Shape(f"userop/{kind}/H2/{mp}/utd={int(utd)}", h_userop,
+                             dict(opts=dict(molecule_key="H2", qubit_mapping=mp, up_then_down=utd, ansatz=BuiltInAnsatze.UCCSD), patt="ss", n=4, kind=kind),
+                             modules=MODS, max_paths=64))
     out.append(Shape("refstate/uccsd/H2/jw", h_refstate, dict(patt="ss"), modules=MODS, max_paths=64))
     return out
